@@ -552,6 +552,32 @@ def run_case(case):
         async def stream_victim(c):
             r = random.Random(case['seed'] + c)
             for rd in range(case['rounds'] * 4):
+                if rd % 4 == 3:
+                    # the async way of dropping a stream: the task that consumes it is cancelled while it waits for the next result (a
+                    # framework does this when the client disconnects); many inputs remain.  The cancellation must complete.
+                    many = [tok(c, rd * 1000 + k, sleep=SERVICE * 2) for k in range(400)]
+
+                    async def src2():
+                        for t in many:
+                            yield t
+
+                    async def consume():
+                        async for x, y in server.stream(src2(), return_x=True, timeout=30):
+                            check_witness(x, y, 'astream-before-cancel')
+                            obs['witness_requests'] -= 1
+
+                    task = asyncio.ensure_future(consume())
+                    await asyncio.sleep(SERVICE * r.choice([1.5, 3, 6]))
+                    task.cancel()
+                    try:
+                        await task
+                    except asyncio.CancelledError:
+                        obs['streams_dropped_by_task_cancellation'] = obs.get('streams_dropped_by_task_cancellation', 0) + 1
+                    except Exception as e:  # noqa: BLE001
+                        if type(e).__name__ != 'ServerBacklogFull':
+                            viol.append({'mech': 'abandon/stream-raised', 'msg': f'cancelled stream consumer ended with {e!r}'})
+                    obs['streams_closed_early'] += 1
+                    continue
                 n = 6
                 pos = rd % (n + 1)
                 toks = [tok(c, rd * 100 + k, sleep=SERVICE * r.choice([0.25, 1])) for k in range(n)]
